@@ -9,10 +9,10 @@ echo "== test suite WITH the change"
 cargo test --offline 2>&1 | grep "test result" 
 echo "== demo WITH the change (must fail)"
 bash $OUT/demo.sh > /tmp/seed/$ID-demo-with.log 2>&1; W=$?; echo "exit=$W"; tail -3 /tmp/seed/$ID-demo-with.log
-git stash -q
+git apply -R $OUT/patch.diff
 echo "== demo WITHOUT the change (must pass)"
 bash $OUT/demo.sh > /tmp/seed/$ID-demo-without.log 2>&1; WO=$?; echo "exit=$WO"; tail -3 /tmp/seed/$ID-demo-without.log
-git stash pop -q
+git apply $OUT/patch.diff
 git diff > /tmp/seed/$ID-recheck.diff
 cmp -s <(git diff) $OUT/patch.diff && echo "patch.diff matches worktree diff" || echo "NOTE: patch.diff differs from worktree diff"
 rm -rf $CARGO_TARGET_DIR
